@@ -51,6 +51,9 @@ var c11Scens = []scen{
 	{"url-hotp||url-hotp", nil, [][]string{{"url-hotp"}, {"url-hotp-2"}}, [2]int{1, 2}, false},
 	{"url-totp||url-totp||url-hotp", []string{"url-hotp"}, [][]string{{"url-totp"}, {"url-totp-2"}, {"url-hotp-2"}}, [2]int{1, 2}, false},
 	{"decode||decode||random", nil, [][]string{{"decode-secret-0", "decode-secret-bad"}, {"decode-secret-1", "decode-secret-2"}, {"random-secret-0"}}, [2]int{1, 2}, false},
+	{"after refusals: totp||totp||totp-validate", []string{"refused-calls"}, [][]string{{"totp-gen"}, {"totp-gen-sha512-6-p60"}, {"totp-validate-hit"}}, [2]int{1, 2}, false},
+	{"after refusals: hotp||hotp-validate||ocra", []string{"refused-calls", "refused-calls"}, [][]string{{"hotp-c2^40-sha256-8"}, {"hotp-validate-hit(-1)"}, {"ocra-short"}}, [2]int{1, 2}, false},
+	{"refusals||totp||totp", nil, [][]string{{"refused-calls"}, {"totp-gen", "totp-gen-sha512-6-p60"}, {"totp-gen-sha512-6-p60", "totp-gen"}}, [2]int{1, 2}, false},
 	{"helpers refused||short||a", nil, [][]string{{"helpers-refused", "helpers-short"}, {"helpers-short", "helpers-refused"}, {"helpers-a"}}, [2]int{1, 2}, false},
 	{"helpers||helpers||random", nil, [][]string{{"helpers-a"}, {"helpers-b"}, {"random-secret-2", "random-secret-0"}}, [2]int{1, 2}, false},
 	{"ocra 1||2", []string{"ocra-short"}, [][]string{{"ocra-short"}, {"ocra-long", "ocra-validate-hit"}}, [2]int{1, 2}, false},
